@@ -1050,6 +1050,13 @@ def plan_threads(focus, seed, tier):
                 if focus in ("uvl-docs", "third"):
                     path, fmt = rng.choice(docs)
                     lane.append({"k": "R", "fmt": fmt, "path": path})
+                elif focus == "ops" and rng.random() < 0.2:
+                    small = gen.default_cfg(rng, "whole", tier)
+                    small["size"] = rng.choice(["s", "s", "m"])
+                    dom = _rand_domain(rng)
+                    lane.append({"k": "A", "ref": gen.gen_model(rng, "whole", pool, small),
+                                 "attr": rng.choice(["cost", "x", "size", "Weight"]),
+                                 "domain": dom, "only_leaf": rng.random() < 0.4})
                 elif focus == "ops" or (focus == "writers" and rng.random() < 0.2):
                     name = rng.choice(OPS + ["FMMetrics"])
                     sub = {"k": "X", "name": name, "m": h}
@@ -1068,7 +1075,8 @@ def plan_threads(focus, seed, tier):
         if len(lanes) < 2:
             continue
         b.op(op="CONC", lanes=lanes, switches=_switches(rng), first=rng.randrange(len(lanes)),
-             order=rng.choice(["seq_first", "seq_after"]), share=share)
+             order=rng.choice(["seq_first", "seq_after"]), share=share,
+             rng_mode=rng.choice(["low", "high"]))
     b.plan["replicas"] = [{"env": {}, "disk_cfg": {}}]
     return b.plan
 
